@@ -317,6 +317,36 @@ func legC14Interleave(c *Ctx) {
 		}
 		c.Add(cs)
 	}
+	// the budget is per CALL, not per attempt: a search whose time is spread over many start positions, each far
+	// cheaper than the timeout, times out like one that blows up in its first attempt (both directions)
+	for _, dir := range []struct {
+		pat string
+		ro  regexp2.RegexOptions
+	}{{`(a+)+b`, 0}, {`b(a+)+`, regexp2.RightToLeft}} {
+		in := strings.Repeat(strings.Repeat("a", 12)+"!", 1500)
+		plain := regexp2.MustCompile(dir.pat, dir.ro)
+		t0 := time.Now()
+		_, _ = plain.MatchString(in)
+		untimed := time.Since(t0)
+		cs := &Case{Desc: fmt.Sprintf("many cheap attempts (%v untimed, 1500 start positions) with MatchTimeout=30ms, options %#x", untimed.Round(time.Millisecond), int(dir.ro)), Nontrivial: true, Key: fmt.Sprint("many-attempts", dir.ro), Class: "many-attempts"}
+		if untimed > 250*time.Millisecond {
+			re := regexp2.MustCompile(dir.pat, dir.ro)
+			re.MatchTimeout = 30 * time.Millisecond
+			c14TakeStall()
+			t0 = time.Now()
+			_, err := re.MatchString(in)
+			el := time.Since(t0)
+			allow := 30*time.Millisecond + 40*time.Millisecond + time.Duration(c14TakeStall())
+			if err == nil {
+				cs.Direct = fmt.Sprintf("the search ran to completion in %v although its deadline (30 ms) passed long before: no timeout was reported", el.Round(time.Millisecond))
+			} else if el > allow && el > untimed/2 {
+				cs.Direct = fmt.Sprintf("the timeout was reported after %v (timeout 30 ms, allowance %v, untimed run %v)", el.Round(time.Millisecond), allow, untimed.Round(time.Millisecond))
+			}
+		} else {
+			c.Hist("many-attempts-too-fast-to-judge")
+		}
+		c.Add(cs)
+	}
 	// MatchTimeout is a public field read at every call: a Regexp first used without a timeout honours one set later
 	// (and the other way round), whatever runner the pool hands back
 	{
